@@ -477,6 +477,20 @@ def small_capa_cases(tier):
                            "X": [[v] for v in x], "c_scale": cs, "p_scale": ps}
 
 
+@st.composite
+def small_integer_cases(draw, tier):
+    """Many cheap univariate cases: small-integer series (ties, many anomalous stretches), a max_segment_length that binds
+    (msl + 1 .. 8), cheap collective and dear point anomalies - the regime in which candidate starts are pruned, expire
+    and are queued for removal all the time."""
+    msl = draw(st.integers(2, 4))
+    case = {"detector": draw(st.sampled_from(["CAPA", "CAPA", "MVCAPA"])), "coll": "L2Saving", "point": "L2Saving", "msl": msl,
+            "maxl": draw(st.integers(msl + 1, 8)), "c_scale": draw(st.sampled_from([0.5, 0.3, 1.0, 0.1])),
+            "p_scale": draw(st.sampled_from([4.0, 2.0, 1.0])), "c_pen": "dense", "p_pen": "dense"}
+    n = draw(st.integers(10, 30))
+    case["X"] = [[float(v)] for v in draw(st.lists(st.integers(-1, 4), min_size=n, max_size=n))]
+    return case
+
+
 # ------------------------------------------------------------------ long series
 
 
@@ -612,6 +626,13 @@ FACETS = [
               "other columns' savings still just below their penalty); same exhaustive reference optimum; "
               "non-trivial = >=1 anomaly and savings sub-additive"),
         n_quick=240, n_thorough=4000, shards_quick=8, shards_thorough=16,
+    ),
+    Facet(
+        name="small_integer_series", check=check_builtin, strategy=small_integer_cases,
+        rule=("many cheap univariate cases: series of 10..30 small integers (-1..4: ties, many anomalous stretches), msl 2..4, "
+              "max_segment_length msl+1..8 (binding), collective scales 0.1..1 and point scales 1..4, CAPA and MVCAPA; same exhaustive "
+              "reference optimum; non-trivial = >=1 anomaly and savings sub-additive"),
+        n_quick=4000, n_thorough=60000, shards_quick=16, shards_thorough=16,
     ),
     Facet(
         name="long_series", kind="enumerate", enumerate=long_cells, check=check_long, exhaustive=True, time_limit=900,
